@@ -188,7 +188,7 @@ Definition judge_C12 (s : sx) : verdict :=
         else if negb (forallb (fun p => (1 <=? snd p) && (snd p <=? nbv)) nm) then Fail "comment-index-out-of-range" []
         else if negb (nodupZ (map snd nm)) then Fail "comment-index-not-distinct" []
         else if negb (nodupZ (map fst nm)) then Fail "comment-name-twice" []
-        else if positive_unique (to_sform f) && same_as_model_export f nbv nbc nm F then
+        else if same_as_model_export f nbv nbc nm F then
           (* identical to the export of the mirrored translation: the model equivalence is C12_models *)
           Ok [Z.of_N (count_models nf (fun m => beval m f)); nbv; Z.of_nat (List.length nm); 1]
         else if 26 <? nbv then
